@@ -230,6 +230,10 @@ func (w *ammWorld) hook(op, class string, f func()) {
 		}
 	}
 	w.out.Emit(fmt.Sprintf("chk c18.recipients tag=%s.recipients %s %d %d%s %s", class, class, lock, nch, sb.String(), pre), "true", "chk.recipients", false)
+	if class == "endblock" && len(w.blocked) == 0 {
+		// provider distribution: every account gained its shares of the pools it is a provider of, nothing else
+		w.out.Emit(fmt.Sprintf("chk c18.l1lppd tag=endblock.lppd %d%s %s", nch, sb.String(), pre), "true", "chk.l1lppd", nch > 0)
+	}
 	if class == "epoch" {
 		// whatever left a bucket reached a wallet or the asset's pool (both modes)
 		w.out.Emit("chk c18.l1flow tag=epoch.flow "+pre+" || "+w.dump(), "true", "chk.l1flow", nch > 0)
@@ -1090,6 +1094,32 @@ func init() {
 			w.opAdd(w.users[3], "cusdc", e18(1), e18(1)) // refreshed: inside the lock period at the epoch end
 			w.setHeight(15)
 			w.opEpoch()
+		}
+		// D18: pools whose symbols are in a prefix relation (cet, cet1, ceth), each with its own provider besides the
+		// creator, under a provider distribution (LPPD) and under depth rewards paid to providers: a provider is paid
+		// out of the pools it is a provider of only
+		for _, mode := range []int{0, 1} {
+			w := newAmmWorld(rng, out, 5, -1)
+			w.fundAll()
+			for i, sym := range []string{"cet", "cet1", "ceth"} {
+				w.opCreate(w.users[0], sym, e18(int64(1000*(i+1))), e18(int64(50*(i+1))))
+				w.opAdd(w.users[i+1], sym, e18(int64(300*(i+1))), e18(int64(15*(i+1))))
+			}
+			if mode == 0 {
+				w.app.ClpKeeper.SetProviderDistributionParams(w.ctx, &clptypes.ProviderDistributionParams{DistributionPeriods: []*clptypes.ProviderDistributionPeriod{{DistributionPeriodBlockRate: sdk.NewDecWithPrec(1, 3), DistributionPeriodStartBlock: 1, DistributionPeriodEndBlock: 10, DistributionPeriodMod: 1}}})
+				w.cfg("lppd 1 10 1000000000000000 1")
+			} else {
+				def := sdk.OneDec()
+				a := sdk.NewUintFromString("1000000000000000000000")
+				per := &clptypes.RewardPeriod{RewardPeriodId: "rp", RewardPeriodStartBlock: 1, RewardPeriodEndBlock: 10, RewardPeriodAllocation: &a, RewardPeriodDefaultMultiplier: &def, RewardPeriodDistribute: true, RewardPeriodMod: 1}
+				p := w.app.ClpKeeper.GetRewardsParams(w.ctx)
+				p.RewardPeriods = []*clptypes.RewardPeriod{per}
+				w.app.ClpKeeper.SetRewardParams(w.ctx, p)
+				w.cfg("rewardperiod 1 10 1000000000000000000000 1 1 1000000000000000000")
+			}
+			for i := 0; i < 3 && !w.halted; i++ {
+				w.opEndBlock()
+			}
 		}
 		// D17: per-token fee overrides set, changed and dropped again (the token then pays the default rate), the
 		// default raised above the dropped override; swaps selling the token on the single and the double route
